@@ -40,3 +40,6 @@ META = {
                "deadlock / bounded progress)",
   "soft_s": {"quick": 60, "thorough": 420},
 }
+
+# EXTENSION families added after the seeded-change rounds
+META["rule"] += (" Added after the seeded-change rounds: " 'two managers alive at once (closing one must not touch the other); a second control thread calling AudioIO.play while the main thread closes; a free-running (uncontrolled) repetition of the scenarios; line-level yield points' ".")
